@@ -1203,6 +1203,16 @@ impl<'s> Walker<'s> {
                         self.depth -= 1;
                         return;
                     }
+                    "count" if m.args.is_empty() => {
+                        // `it.count()` -> verif_count(it): the number of remaining items (R13)
+                        self.open(es, "verif_count(", "R13");
+                        self.replace((re, ee), ")", "R13");
+                    }
+                    "any" | "all" if m.args.len() == 1 && self.ov.opts.get("wrap_any_all").map(|v| v == "on").unwrap_or(false) => {
+                        // `it.any(f)` / `it.all(f)` -> verif_any(it, f) / verif_all(it, f): the adapters' definitions over the items (R13)
+                        self.open(es, if mname == "any" { "verif_any(" } else { "verif_all(" }, "R13");
+                        self.replace((re, po_end), ", ", "R13");
+                    }
                     "enumerate" if m.args.is_empty() => {
                         self.open(es, "verif_enumerate(", "R13");
                         self.replace((re, ee), ")", "R13");
@@ -1253,7 +1263,7 @@ impl<'s> Walker<'s> {
                             let (_, ire) = self.src.range(inner.receiver.span());
                             let ipo_end = self.src.off(inner.paren_token.span.open().end());
                             let ipc_start = self.src.off(inner.paren_token.span.close().start());
-                            let w = if mname == "product" { "verif_map_product(" } else { "verif_map_sum(" };
+                            let w = if mname == "product" { "verif_map_product(" } else if self.ov.opts.get("sum_type").map(|v| v == "usize").unwrap_or(false) { "verif_map_sum_usize(" } else { "verif_map_sum(" };
                             self.open(is, w, "R13");
                             self.replace((ire, ipo_end), ", ", "R13");
                             self.replace((ipc_start, ee), ")", "R13");
@@ -1302,7 +1312,7 @@ impl<'s> Walker<'s> {
                     return;
                 }
                 self.walk_expr(&m.receiver);
-                let hof = ["map_err", "map", "and_then", "map_or", "map_or_else", "unwrap_or_else", "ok_or_else", "filter_map", "flat_map"].contains(&mname.as_str());
+                let hof = ["map_err", "map", "and_then", "map_or", "map_or_else", "unwrap_or_else", "ok_or_else", "filter_map", "flat_map", "any", "all"].contains(&mname.as_str());
                 for a in m.args.iter() {
                     self.walk_arg_hof(a, hof);
                 }
@@ -1594,10 +1604,17 @@ impl<'s> Walker<'s> {
                     self.replace((ps, pe), &format!("_p{}{}", k, t), "R4");
                 }
                 syn::Pat::Reference(r) => {
-                    let inner_txt = self.src.slice(r.pat.span()).to_string();
+                    // `&i` -> `let i = *p;`, `&&i` -> `let i = **p;` (Verus has no reference patterns)
+                    let mut stars = String::from("*");
+                    let mut innermost: &syn::Pat = &r.pat;
+                    while let syn::Pat::Reference(r2) = innermost {
+                        stars.push('*');
+                        innermost = &r2.pat;
+                    }
+                    let inner_txt = self.src.slice(innermost.span()).to_string();
                     let t = ty.clone().map(|t| format!(": {}", t)).unwrap_or_default();
                     self.replace((ps, pe), &format!("p{}{}", k, t), "R4");
-                    lets.push_str(&format!("let {} = *p{}; ", inner_txt, k));
+                    lets.push_str(&format!("let {} = {}p{}; ", inner_txt, stars, k));
                     let kk = ty.as_ref().map(|t| kind_of_type_str(t)).unwrap_or((K::Other, K::Other));
                     self.bind_pat(&r.pat, kk);
                 }
